@@ -35,6 +35,8 @@ pub fn simple_texts() -> Vec<String> {
             spdx: false,
             blank_lines: vec![1],
             clash: false,
+                kinds: vec![],
+                extras: vec![],
         }));
     }
     v
